@@ -61,6 +61,11 @@ CHECKS["C01"] = ("exploration",
          "4.C01", "generated grammars x generated command lines (seeded proptest choice streams) x differential oracle: reference interpreter vs execution in bash",
          "trusted: reference semantics + interpreter (model.rs, interp.rs), bash driver; bash queries run at ~20-30/s on this box whatever the parallelism, so quick = 150 grammars (~1400 completions), thorough = 4000 grammars; two known findings (word skipped before a command; truncated word accepted) are classified by signature and have witnesses")
 
+CHECKS["C12"] = ("exploration",
+         "Generated grammars with a within-word alternation over prefix chains (optionally two || levels, optionally a separator and a second value set) followed by further words are compiled with the real binary and executed in bash: every value fully typed as a complete word -> the reference interpreter's exact answer for the following word; every prefix of every value as the cursor word -> all allowed values properly extending it are offered and nothing but allowed extensions.",
+         "4.C12", "generated value sets with prefix chains (seeded proptest choice streams) x enumerated queries per grammar x reference-interpreter / bounds oracle against bash execution",
+         "trusted: reference interpreter; the cursor-word oracle is a lower/upper bound because the statement does not say whether the typed value itself is offered; ~700 completions per quick run (bash throughput limit)")
+
 NOT_YET = {
 }
 
